@@ -1406,7 +1406,11 @@ namespace bloch::runtime {
             return;
         obj->destroyed = true;
         if (runUserDestructor && obj->cls) {
+            // A destructor can run while its owner's scope unwinds from a 'return': the pending
+            // return state belongs to that caller and must neither cut the destructor body short
+            // nor be overwritten by calls the destructor makes.
             bool savedReturn = m_hasReturn;
+            Value savedReturnValue = m_returnValue;
             for (RuntimeClass* cur = obj->cls; cur; cur = cur->base) {
                 if (!cur->destructorDecl || !cur->destructorDecl->body)
                     continue;
@@ -1425,6 +1429,7 @@ namespace bloch::runtime {
                 thisVal.objectValue = std::shared_ptr<Object>(obj, [](Object*) {});
                 thisVal.className = cur->name;
                 m_env.back()["this"] = {thisVal, false, true};
+                m_hasReturn = false;
                 for (auto& stmt : cur->destructorDecl->body->statements) {
                     exec(stmt.get());
                     if (m_hasReturn)
@@ -1437,6 +1442,7 @@ namespace bloch::runtime {
                 m_currentClassCtx = prevClass;
             }
             m_hasReturn = savedReturn;
+            m_returnValue = savedReturnValue;
         }
         // Reset tracked qubits
         if (obj->cls) {
